@@ -428,6 +428,13 @@ class EngineC18:
                 raise Skip("not_random_init")
         elif op == "R5":
             var = {"sparse": True, "perm_seed": step["perm_seed"]}
+            if alg in ("cp_apr_pdnr", "cp_apr_pqnr") and init.get("init_kind") == "explicit":
+                # PDNR/PQNR replace an all-zero row of the guess by 1e-8, which is exactly their active-set threshold
+                # epsActive: the very first active-set decision is then a tie that last-bit differences between the
+                # dense and the sparse arithmetic break either way (soak seed 501: 10 % and 32 % apart after one
+                # inner iteration). Such guesses stay in for the bit-identity relations, not for dense-vs-sparse.
+                if any((np.asarray(dec(f)).sum(axis=1) == 0).any() for f in init["factors"]):
+                    raise Skip("zero_row_guess_ties_active_set_threshold")
             if alg in ("cp_apr_pdnr", "cp_apr_pqnr"):
                 # The Newton variants take discrete decisions (active sets, line-search acceptance); once
                 # margins shrink near convergence a last-bit difference between the dense and the sparse
